@@ -138,8 +138,10 @@ def gen_all_users_case(rng, index, tier):
     each passwd entry, $topdir/.Trash/$uid and $topdir/.Trash-$uid of each
     uid) are purged by the same rule; without the option only one's own"""
     L = gen.make_layout(rng, volumes=['v1'], home_own_volume=False, xdg='unset',
-                        top_states={'v1': rng.choice(['sticky', 'absent'])},
-                        alt_states={}, trash_volumes_env=True, uid=1000)
+                        top_states={'v1': rng.choice(['sticky', 'absent',
+                                                      'nonsticky'])},
+                        alt_states={}, trash_volumes_env=rng.random() < 0.5,
+                        uid=1000)
     now = '2024-06-30T12:00:00'
     users = [['me', 1000, '@/' + L.home], ['alice', 4101, '@/home/alice'],
              ['bob', 4102, rng.choice(['@/home/alice', '@/home/bob'])],
@@ -152,7 +154,9 @@ def gen_all_users_case(rng, index, tier):
             continue
         tds = [(home[2:] + '/.local/share/Trash', True, ''),
                ('v1/.Trash-%d' % uid, False, 'v1')]
-        if L.top_state.get('v1') == 'sticky':
+        if L.top_state.get('v1') in ('sticky', 'nonsticky'):
+            # (under a .Trash without the sticky bit nobody's $uid directory
+            # may be read or purged)
             tds.append(('v1/.Trash/%d' % uid, False, 'v1'))
         for td, is_home, vol in tds:
             for date in ('2024-01-01T00:00:00', '2024-06-30T11:00:00'):
@@ -163,6 +167,8 @@ def gen_all_users_case(rng, index, tier):
                                              'c%dau%d' % (index, n),
                                              volume_rel=vol, home=is_home)
                     e['owner'] = uid
+                    e['insecure'] = td.startswith('v1/.Trash/') and \
+                        L.top_state.get('v1') == 'nonsticky'
                     e['dkind'] = 'normal'
                     e['text_date'] = date
                     entries.append(e)
@@ -189,6 +195,21 @@ def run_all_users(case):
         args = (['--all-users'] if case['all_users'] else []) + \
             ([] if case['days'] is None else [str(case['days'])])
         passwd = [[n, u, world.subst(h, w.R)] for n, u, h in case['passwd']]
+        if case['all_users']:
+            # what trash-empty --all-users is about to judge is what
+            # trash-list --all-users shows
+            rl = run.run(w, 'list', ['--all-users'], stdin=b'',
+                         plan={'passwd': passwd})
+            shown = rl.outtext().split('\n')
+            for e in case['entries']:
+                full = w.abs(e['loc'])
+                seen = any(ln.endswith(' ' + full) for ln in shown)
+                if seen == bool(e.get('insecure')):
+                    viol(out, 'all-users:list-%s' % (
+                        'shows-entry-of-insecure-dir' if seen else 'misses-entry'),
+                        rl, e, case)
+                else:
+                    obs['all_users_entries_listed'] = obs.get('all_users_entries_listed', 0) + 1
         r = run.run(w, 'empty', args, stdin=b'', plan={'passwd': passwd})
         s1 = w.snapshot()
         if r.timeout or r.audit_ok() is False:
@@ -199,7 +220,7 @@ def run_all_users(case):
         for e in case['entries']:
             st = trashworld.entry_state(s0, s1, e)
             mine = e['owner'] == case['uid']
-            selected = case['all_users'] or mine
+            selected = (case['all_users'] or mine) and not e.get('insecure')
             exp = selected and expected_removed(e, now, case['days'])
             if exp and st != 'gone':
                 viol(out, 'all-users:old-entry-kept/uid-%s' % (
